@@ -58,11 +58,12 @@ let run (c : string) (obs : string) : string * string * string =
       | ["fail"; b] -> failing := (b = "1")
       | ["log"; h; lvl; msg; st; a] ->
         let hl = (!hs).(int_of_string h) and attrs = parse_attrs a and lvl = z_of_int (int_of_string lvl) and msg = unhex_dash msg in
-        let r = m_mk_record lvl msg attrs (st = "1") in
+        let st1 = (st = "1" || st = "2") in     (* 2: the record was created by errs' own logging functions, which swallow the handler's error *)
+        let r = m_mk_record lvl msg attrs st1 in
         if m_enabled minl r then begin
-          let e = if mode = "buf" then "0" else if !failing then "1" else "0" in
+          let e = if st = "2" then "?" else if mode = "buf" then "0" else if !failing then "1" else "0" in
           out := (e ^ ":" ^ hexs (m_bytes_of hl r)) :: !out;
-          spec_out := (if m_solid hl attrs then Some (e ^ ":" ^ hexs (m_spec_line hl lvl msg attrs @ (if st = "1" then bytes_of_hex "3c535441434b3e0a" else []))) else None) :: !spec_out
+          spec_out := (if m_solid hl attrs then Some (e ^ ":" ^ hexs (m_spec_line hl lvl msg attrs @ (if st1 then bytes_of_hex "3c535441434b3e0a" else []))) else None) :: !spec_out
         end else begin out := "-:" :: !out; spec_out := Some "-:" :: !spec_out end
       | _ -> ()) rest;
     let model = String.concat " / " (List.rev !out) in
